@@ -136,6 +136,60 @@ func runC11(c *Ctx) {
 		}
 	}
 	rep.Exhaustive(fmt.Sprintf("plaintext lengths 0..1024 x 4 modes x %d (key,IV) groups", groups))
+	// buffer-reuse histories (serial, one IV): consecutive helper calls receive the same key and plaintext buffers whose
+	// contents are edited in place or refilled in between, with encrypt/decrypt and the four modes mixed; every call must
+	// answer for the current contents, and calls must not influence one another
+	{
+		rh := c.Rng("reuse")
+		iv := rh.Bytes(16)
+		sm4.SetIV(iv)
+		ivCopy := append([]byte{}, iv...)
+		for h := 0; h < c.Q(80, 4000); h++ {
+			key, pt := rh.Bytes(16), rh.Bytes(rh.Pick(0, 1, 15, 16, 17, 31, 32, 48, 100))
+			var trace []string
+			for st := 0; st < 2+rh.Intn(6); st++ {
+				switch rh.Intn(4) {
+				case 0:
+					key[rh.Intn(16)] ^= 1 << uint(rh.Intn(8))
+					trace = append(trace, "key-edited")
+				case 1:
+					rh.Fill(key)
+					trace = append(trace, "key-refilled")
+				case 2:
+					if len(pt) > 0 {
+						pt[rh.Intn(len(pt))] ^= 0x20
+						trace = append(trace, "plaintext-edited")
+					}
+				}
+				m := modes[rh.Intn(len(modes))]
+				trace = append(trace, m.name)
+				want := m.want(key, ivCopy, ref.PKCS7Pad(pt, 16))
+				var ct, back []byte
+				var e1, e2 error
+				w := map[string]interface{}{"history": append([]string{}, trace...), "key": mon.Hex(key), "iv": mon.Hex(ivCopy), "plaintext": mon.Hex(pt)}
+				if pi := mon.Guard(func() {
+					ct, e1 = m.f(key, pt, true)
+					back, e2 = m.f(key, want, false)
+				}); pi != nil {
+					rep.Violation("C11/history/panic/"+pi.Func, pi.Value, w)
+					break
+				}
+				if e1 != nil || !bytes.Equal(ct, want) {
+					rep.Violation("C11/history/"+m.name+"/encrypt-does-not-follow-current-buffer-contents", fmt.Sprintf("after %v err=%v", trace, e1), w)
+					break
+				}
+				if e2 != nil || !bytes.Equal(back, pt) {
+					rep.Violation("C11/history/"+m.name+"/decrypt-does-not-follow-current-buffer-contents", fmt.Sprintf("after %v err=%v", trace, e2), w)
+					break
+				}
+				if !bytes.Equal(iv, ivCopy) {
+					rep.Violation("C11/history/iv-buffer-written", fmt.Sprintf("after %v", trace), w)
+					break
+				}
+			}
+			rep.Eval(fmt.Sprintf("history/buffer-reuse/len=%d", len(pt)))
+		}
+	}
 	// key length errors
 	for _, n := range []int{0, 1, 15, 17, 24, 32} {
 		for _, m := range modes {
